@@ -4,15 +4,14 @@ from .. import model
 from . import gsim as G
 
 CLAIM = dict(
-    text="Coq theorems about the executable model of the derivation graph of Ovld objects (Model/Graph.v: own tables with the same-signature push-down, mixins, children, linkback, lock, compile snapshot, _update propagation), as invariants of every finite operation sequence from the empty graph: the effective table is the parents' effective tables overlaid by the own one (own wins, later mixin over earlier); an operation on N leaves the observable of every node that does not derive from N unchanged, and of every used node not reached from N through linkback derivations; first use changes no observable; a locked node refuses every modification; direct non-linkback parents of a used node are locked (the full transitive statement is refuted: KF-18, and add_mixins on a used node escapes both lock and rebuild: KF-40); after register/unregister every linkback descendant is up to date; histories without the two finding classes keep every used node equal to the overlay. The model is tied to /repo on every run: random histories over <= 6 functions replayed from scratch after every step, every node probed on every signature (whole call_next chain, 'No method', 'locked'), compared with the extracted model and with the property oracles evaluated on the implementation alone.",
-    note="Trusted: Coq kernel, extraction, OCaml driver, the hand-written model (validated by the correspondence), the harness. Abstraction: a node's behaviour is its effective table (signature key -> method); that dispatch depends on the table only is the Resolve component's business. Partial: the transitive lock and the 'always equals the overlay' statements are false of the code (KF-18, KF-40).",
+    text="Coq theorems about the executable model of the derivation graph of Ovld objects (Model/Graph.v: own tables with the same-signature push-down, mixins, children, linkback, recursive lock, compile snapshot, _update propagation incl. after add_mixins), as invariants of every finite operation sequence from the empty graph: the effective table is the parents' effective tables overlaid by the own one (own wins, later mixin over earlier); an operation on N leaves the observable of every node that does not derive from N unchanged, and of every used node not reached from N through linkback derivations; first use changes no observable; a locked node refuses every modification; FULL lock: once a node is in use, every function it derives from through a path whose first derivation is not a linkback one is locked (plain paths of any length, plain-then-linkback paths), and a locked function never derives from a modifiable one; after register / unregister / add_mixins every linkback descendant is up to date; histories outside the one remaining finding class (KF-43: a used linkback derivation of a never-used plain copy) keep every used node equal to the overlay. The model follows the repaired code (KF-18, KF-40 fixed) and is tied to /repo on every run: random histories over <= 6 functions replayed from scratch after every step, every node probed on every signature (whole call_next chain, 'No method', 'locked'), compared with the extracted model and with the property oracles evaluated on the implementation alone.",
+    note="Trusted: Coq kernel, extraction, OCaml driver, the hand-written model (validated by the correspondence), the harness. Abstraction: a node's behaviour is its effective table (signature key -> method); that dispatch depends on the table only is the Resolve component's business. Partial: 'a used node always equals the overlay' is still false of the code in one class (KF-43).",
     technique="Coq proof (invariants over fold_left of the step function, fuelled traversals) + differential correspondence with scratch replays",
     design="6 C16")
 
-THEOREMS = ["C16_never_stuck", "C16_overlay", "C16_overlay_used_partial", "C16_overlay_refuted_stale",
-            "C16_overlay_refuted_late_mixin", "C16_isolation", "C16_isolation_used", "C16_use_invisible",
-            "C16_refused_unchanged", "C16_locked_refuses", "C16_lock_partial", "C16_lock_refuted",
-            "C16_lock_refuted_late_mixin", "C16_linkback", "C16_linkback_refuted_add_mixins"]
+THEOREMS = ["C16_never_stuck", "C16_overlay", "C16_overlay_used_partial", "C16_overlay_refuted_unused_link",
+            "C16_isolation", "C16_isolation_used", "C16_use_invisible", "C16_refused_unchanged", "C16_locked_refuses",
+            "C16_lock", "C16_lock_plain_paths", "C16_lock_closed", "C16_linkback"]
 ASSUMPTIONS = [
     "a node's behaviour is represented by its effective table (signature key incl. tiebreak -> method label); resolution itself is not modelled here (the probes use single-inheritance chains of classes, where the chain of call_next is determined by the table)",
     "histories never close a cycle of mixins (add_mixins of a descendant): the real code then recurses forever in defns (RecursionError); the model refuses such a step as Invalid, and the harness checks that agreement on a separate stream",
@@ -123,7 +122,7 @@ def check_history(ctx, ops, mres, stats=None, report=True):
         return fails
     for k, op in enumerate(ops):
         out, locks, probes = G.observe(ops, k)
-        m_out, m_nodes, m_exposed, m_late = mres[k]
+        m_out, m_nodes, m_exposed = mres[k]
         outc = out if isinstance(out, int) else 9
         t = op[0]
         if stats is not None:
@@ -170,34 +169,29 @@ def check_history(ctx, ops, mres, stats=None, report=True):
                 bad(f"step {k} {OPN[t]} on {N} changed the behaviour of node {m} ({'not derived from it' if m not in desc else 'used, not linked back'})", k)
             if not performed and locks[m] != prev_locks[m]:
                 bad(f"step {k}: refused/invalid operation changed the lock of node {m}", k)
-        # lock: every ancestor of a used node through non-linkback derivations refuses modification
+        # lock: once a node is in use, its direct non-linkback parents and everything they derive from refuse modification
         for c in range(spec.n()):
-            if not spec.used[c]:
+            if not spec.used[c] or spec.lb[c]:
                 continue
-            for a, d in spec.nl_ancestors(c).items():
-                if locks[a] == 1:
-                    continue
-                if d >= 2:
-                    known("KF-18", k)
-                    if stats is not None:
-                        stats["kf18_unlocked_ancestor"] += 1
-                elif spec.edge_step[c].get(a, -1) > spec.used_at[c]:
-                    known("KF-40", k)
-                    if stats is not None:
-                        stats["kf40_unlocked_late_parent"] += 1
-                else:
-                    bad(f"step {k}: node {a} is a direct non-linkback parent of used node {c} and is not locked", k)
+            for m in spec.mixins[c]:
+                for a in {m} | spec.ancestors(m):
+                    if locks[a] != 1:
+                        bad(f"step {k}: node {a} is (an ancestor of) a non-linkback parent of used node {c} and is not locked", k)
+                    elif stats is not None:
+                        stats["lock_checks"] += 1
         # cause bookkeeping for out-of-date nodes: the model's classifiers on this step
         if performed:
             for c in m_exposed:
-                causes[c].add("KF-18" if t in (4, 5) else "KF-40")
+                causes[c].add("KF-43")
         for n in range(len(m_nodes)):
             if m_nodes[n][2] == 1:
                 causes[n] = set()
         # linkback: after a change of N every linkback descendant shows it
         refs = [G.ref_probe(spec.entries(n)) for n in range(spec.n())]
-        if performed and t in (4, 5):
+        if performed and (t in (4, 5) or (t == 3 and any(m != N for m in op[2:]))):
             for c in lbdesc:
+                if stats is not None:
+                    stats["linkback_checks"] += 1
                 if probes[c] != refs[c]:
                     bad(f"step {k}: {OPN[t]} on {N} is not visible in its linkback descendant {c}", k)
         # overlay: every node answers like a fresh function built from the overlay of the method sets
@@ -327,7 +321,7 @@ def run(ctx):
            "histories_with_linkback": stats["histories_with_linkback"],
            "histories_with_use_in_first_half": stats["histories_used_before_modification"],
            "out_of_date_observations_attributed": stats["stale_observations"],
-           "unlocked_ancestor_observations": {"KF-18": stats["kf18_unlocked_ancestor"], "KF-40": stats["kf40_unlocked_late_parent"]},
+           "lock_checks": stats["lock_checks"], "linkback_checks": stats["linkback_checks"],
            "cycle_guard_cases": stats["cycle_guard_cases"], "vm_compute_crosscheck_cases": cross}
     if exhaustive:
         cov["small_scope"] = exhaustive
